@@ -469,7 +469,7 @@ fn sample_json(t: &Type, variant: usize) -> Value {
     }
 }
 
-fn judge_request(nparams: usize, split: u32, extras: bool, corruption: usize, o: &mut Outcome) {
+fn judge_request(nparams: usize, split: u32, extras: bool, corruption: usize, both_ways: bool, o: &mut Outcome) {
     let (tx, decl) = request_tir(nparams);
     let (bytes, _) = tx3_tir::encoding::to_bytes(&tx);
     let mut args = serde_json::Map::new();
@@ -485,6 +485,24 @@ fn judge_request(nparams: usize, split: u32, extras: bool, corruption: usize, o:
         }
         if let Some(s) = strict_decode(&v, t) {
             expected.push((n.clone(), s));
+        }
+    }
+    // a parameter supplied both ways: the explicit argument is the one that counts, the env value is a well-formed
+    // other value (so that taking it instead shows)
+    if both_ways {
+        if let Some((n, t)) = decl.first() {
+            let explicit = sample_json(t, 0);
+            let other = match t {
+                Type::Int => json!(991),
+                Type::Bytes => json!("ffee"),
+                _ => json!(hex_enc(&base_address(6, 0), false)),
+            };
+            args.insert(n.clone(), explicit.clone());
+            env.insert(n.clone(), other);
+            expected.retain(|(k, _)| k != n);
+            if let Some(s) = strict_decode(&explicit, t) {
+                expected.push((n.clone(), s));
+            }
         }
     }
     if extras {
@@ -509,9 +527,18 @@ fn judge_request(nparams: usize, split: u32, extras: bool, corruption: usize, o:
         13 => (json!("€"), json!("hex"), json!("v1beta0"), false),
         14 => (json!(format!("0é{hexed}")), json!("hex"), json!("v1beta0"), false),
         15 => (json!("😀ff"), json!("base64"), json!("v1beta0"), false),
-        _ => (json!(format!("{}é", &hexed[..hexed.len() - 1])), json!("hex"), json!("v1beta0"), false),
+        16 => (json!(format!("{}é", &hexed[..hexed.len() - 1])), json!("hex"), json!("v1beta0"), false),
+        // version names an error message might quote: long, with wide characters around byte 32
+        17 => (json!(hexed), json!("hex"), json!(format!("{}{}", "x".repeat(31), "é".repeat(8))), false),
+        18 => (json!(hexed), json!("hex"), json!("€".repeat(30)), false),
+        19 => (json!(hexed), json!("hex"), json!(format!("{}{}", "x".repeat(30), "😀".repeat(4))), false),
+        // payloads nested far deeper than any template (well-shaped all the way down, and below an unknown key)
+        20 => (json!(hex_enc(&super::c11::bomb("valid-list-nesting", 300), false)), json!("hex"), json!("v1beta0"), false),
+        21 => (json!(hex_enc(&super::c11::bomb("valid-list-nesting", 200_000), false)), json!("hex"), json!("v1beta0"), false),
+        22 => (json!(hex_enc(&super::c11::bomb("valid-negate-nesting", 100_000), false)), json!("hex"), json!("v1beta0"), false),
+        _ => (json!(b64_enc(&super::c11::bomb("unknown-key", 300_000))), json!("base64"), json!("v1beta0"), false),
     };
-    let doc = json!({"tir": {"content": content, "encoding": encoding, "version": version}, "args": args, "env": if split == 0 && !extras { Value::Null } else { Value::Object(env.clone()) }});
+    let doc = json!({"tir": {"content": content, "encoding": encoding, "version": version}, "args": args, "env": if split == 0 && !extras && !both_ways { Value::Null } else { Value::Object(env.clone()) }});
     o.evals += 1;
     let parsed: Result<ResolveParams, _> = serde_json::from_value(doc.clone());
     let Ok(req) = parsed else {
@@ -519,7 +546,7 @@ fn judge_request(nparams: usize, split: u32, extras: bool, corruption: usize, o:
         return;
     };
     let res = panics::catch(|| parse_resolve_request(req).map(|(_, a)| a.iter().map(|(k, v)| (k.clone(), format!("{v:?}"))).collect::<Vec<_>>()).map_err(|e| e.to_string()));
-    let where_ = format!("split={split:b} extras={extras} corruption={corruption}");
+    let where_ = format!("split={split:b} extras={extras} corruption={corruption} both_ways={both_ways}");
     match res {
         Err(p) => {
             o.class("request:panic");
@@ -625,7 +652,7 @@ impl Prop for C16 {
          strings of every length 0..33 (thorough 40) as hex / 0xhex / hex envelope / base64 envelope (with the alias keys), 6 addresses as bech32 and \
          hex, utxo refs with txid length {1,32} x index {0,1,2^32-1}; rejection: every single-character edit (delete, insert / substitute one of \
          g x 0 # - space \" and the 2-, 3- and 4-byte characters é € 😀) at every position of every valid string encoding, and 42 JSON values of every kind, each against all 5 types; \
-         requests: 0..3 declared parameters x all 2^n splits between args and env x undeclared extras x 17 envelope variants (5 with multi-byte content); \
+         requests: 0..3 declared parameters x all 2^n splits between args and env x undeclared extras x 24 envelope variants (multi-byte content, version names with wide characters around byte 32, payloads nested 300 .. 300 000 deep), and a parameter supplied both as argument and in env (the argument counts); \
          a request for every template that holds one value parameter in one position (every one-level IR context x 19 placements; the parameters held are found by an independent structural walk). Oracle: a strict \
          decoder written from the documented encodings (own hex, base64, bech32): from_json returns Ok(v) iff the text denotes v; requests yield \
          exactly the declared subset. Non-trivial = from_json / parse_resolve_request was executed and compared; distinct = (json text, type)."
@@ -711,9 +738,15 @@ impl Prop for C16 {
                 let n = case["params"].as_u64().unwrap_or(0) as usize;
                 let split = case["split"].as_u64().unwrap_or(0) as u32;
                 let extras = case["extras"].as_bool().unwrap_or(false);
-                for corruption in 0..17 {
-                    judge_request(n, split, extras, corruption, &mut o);
+                for corruption in 0..24 {
+                    judge_request(n, split, extras, corruption, false, &mut o);
                     o.key(hash64(&(n, split, extras, corruption)));
+                }
+                if n > 0 {
+                    for corruption in 0..3 {
+                        judge_request(n, split, extras, corruption, true, &mut o);
+                        o.key(hash64(&(n, split, extras, corruption, "both")));
+                    }
                 }
             }
             _ => {}
